@@ -67,8 +67,9 @@ class C13(Check):
                     # trees of equal rank built sequentially first (a random perfect matching, optionally matched again), then
                     # one or two concurrent operations per thread on few elements: the threads meet on the same pair of roots
                     # through different element pairs, and the structure is inspected raw at quiescence
-                    args.update({"shape": rng.choice([1, 1, 2]), "elems": rng.choice([4, 4, 4, 5, 6, 8]), "ops": rng.choice([1, 1, 2, 3]),
-                                 "prelude": rng.choice([0, 0, 1]), "threads": rng.choice([2, 2, 2, 3])})
+                    args.update({"shape": rng.choice([1, 1, 1, 2]), "elems": rng.choice([4, 4, 4, 4, 4, 4, 5, 6, 8, 8]),
+                                 "ops": rng.choice([1, 1, 1, 1, 1, 1, 2, 2, 3]), "prelude": rng.choice([0, 0, 0, 1]),
+                                 "threads": rng.choice([2, 2, 2, 2, 2, 3]), "stay": rng.choice([0, 0, 20, 50]), "mode": rng.choice([0, 0, 0, 2])})
                 jobs.append({"flavour": "par", "kind": "c13uf", "args": args, "timeout": 120})
             for _ in range(150 if quick else 400):
                 args = {"threads": rng.choice([2, 2, 3]), "ops": rng.randint(1, 4), "logsize": rng.choice([2, 3, 3, 4]),
